@@ -1476,6 +1476,8 @@ void Executor<OptionsTy>::go() {
     } else {
       this->calculateWindow(false);
 
+      barrier.wait();
+
       this->pushNextWindow(tld.wlnext, local.nextWindow());
     }
   }
